@@ -59,13 +59,21 @@ func genC05(seed uint64, withSpec bool) *Scenario {
 			vs := pick(r, refFree)
 			sc.LL = append(sc.LL, &LLValidator{Kind: "schema", Schema: vs.text})
 			lls = append(lls, llv{insts: vs.instances})
-		} else {
+		} else if r.Chance(600) {
 			p := pick(r, v.params)
 			l := llv{}
 			for k := 0; k < 3; k++ {
 				l.tvals = append(l.tvals, g.TypedFor(p, r.Chance(600)))
 			}
 			sc.LL = append(sc.LL, &LLValidator{Kind: "param", Schema: js(p)})
+			lls = append(lls, l)
+		} else {
+			h := pick(r, v.headers)
+			l := llv{}
+			for k := 0; k < 3; k++ {
+				l.tvals = append(l.tvals, g.TypedFor(h, r.Chance(600)))
+			}
+			sc.LL = append(sc.LL, &LLValidator{Kind: "header", Schema: js(h), Path: "X-Shared"})
 			lls = append(lls, l)
 		}
 	}
@@ -131,10 +139,13 @@ func genC05(seed uint64, withSpec bool) *Scenario {
 				op = Op{Kind: KAgainst, Shared: si + 1, Schema: sharedVS[si].text, Data: pick(r, sharedVS[si].instances), OrderSeed: orderSeedFor(r)}
 			case x < 68 && len(lls) > 0:
 				li := r.Intn(len(lls))
-				if sc.LL[li].Kind == "schema" {
+				switch sc.LL[li].Kind {
+				case "schema":
 					op = Op{Kind: KLLSchema, LL: li, Data: pick(r, lls[li].insts), OrderSeed: orderSeedFor(r)}
-				} else {
+				case "param":
 					op = Op{Kind: KLLParam, LL: li, TVal: pick(r, lls[li].tvals), OrderSeed: orderSeedFor(r)}
+				default:
+					op = Op{Kind: KLLHeader, LL: li, TVal: pick(r, lls[li].tvals), OrderSeed: orderSeedFor(r)}
 				}
 			case x < 80:
 				op = v.paramOp(g, 750)
